@@ -1838,10 +1838,11 @@ func (rr *TKEY) parse(c *zlexer, o string) *ParseError {
 	l, _ := c.Next()
 
 	// Algorithm
-	if l.value != zString {
+	name, nameOk := toAbsoluteName(l.token, o)
+	if l.value != zString || l.err || !nameOk {
 		return &ParseError{err: "bad TKEY algorithm", lex: l}
 	}
-	rr.Algorithm = l.token
+	rr.Algorithm = name
 	c.Next() // zBlank
 
 	// Get the key length and key values
